@@ -136,3 +136,18 @@ def samevalues_direct(result):
         elif pend is not None and op[0] != "getattr":
             pend = None
     return out
+
+
+def no_output_direct(result):
+    """`nop expect-no-output` marks a call that, by the property, must not hand out a result (an operation with a private key in a session of a token on which the
+    normal user is not logged in): CKR_OK with bytes is a violation, named after the call"""
+    out, armed = [], False
+    for op, res in iter_ops(result):
+        if op[:2] == ["nop", "expect-no-output"]:
+            armed = True; continue
+        if armed:
+            armed = False
+            if res and res[0] == "0" and len(res) > 3 and res[3] not in ("-",) and not res[3].startswith("W"):
+                out.append(("private-key-op-after-logout.%s" % op[0], "`%s` answered CKR_OK with %s output bytes although the normal user is not logged in on the token "
+                            "(the operation was started with a private key before C_Logout)" % (" ".join(op)[:80], res[2])))
+    return out
